@@ -197,7 +197,7 @@ def checker_factory(modname):
                                 bad = False
                             ok = False
                             applicable = True
-                            sw.finding('check character differs from the generated one', g.__name__, input=w[0], opts=opts, today=w[1], approx=ctx.approx,
+                            sw.finding('check character differs from the generated one', g.__name__, input=w[0], opts=opts, today=w[1], approx=ctx.approx or bool(getattr(ctx, 'soft', None)),
                                        real=[list(rv[:2]), gen], reproduced=bool(bad))
                     # otherwise: this relation is not the one that justified acceptance on this path (several schemes)
                     continue
@@ -209,7 +209,7 @@ def checker_factory(modname):
                         if w:
                             ok = False
                             sw.finding('generator depends on the check character', g.__name__, input=w[0], opts=opts, today=w[1],
-                                       approx=ctx.approx, real=None, reproduced=False)
+                                       approx=ctx.approx or bool(getattr(ctx, 'soft', None)), real=None, reproduced=False)
             if not applicable:
                 continue
             used = True
@@ -249,7 +249,7 @@ def checker_factory(modname):
                     rep_ = r1[0] == 'return' and r2[0] == 'return' and vx != x2
                     okA = False
                     sw.finding('altered check character accepted', 'position %d of %d' % (i, L), input=vx, altered=x2, opts=opts, today=td,
-                               approx=ctx.approx, real=[list(r1[:2]), list(r2[:2])], reproduced=rep_)
+                               approx=ctx.approx or bool(getattr(ctx, 'soft', None)), real=[list(r1[:2]), list(r2[:2])], reproduced=rep_)
                 sw.obligations.append((oid + '/alteration@%d' % i, 'proved' if okA else 'refuted', '%d paths' % len(paths)))
         if used and len(sw.samples) < 1:
             sw.samples.append(dict(n=n, relations=[(g.__name__, ast.unparse(a), ast.unparse(b), op) for g, a, b, op, var in rels]))
@@ -366,7 +366,10 @@ def still_fails(k):
 def check(prop, tier, args):
     rep = Report('C05', tier, 'proof', './check C05 --tier %s' % tier, seed=int(os.environ.get('VERIF_SEED', '0') or 0))
     mods = []
+    from ..sweep import GENERIC
     for m in front.number_modules():
+        if m.__name__ in GENERIC:
+            continue          # the generic algorithms work on caller-supplied alphabets: their guarantees are C06
         if any(k.startswith('calc_check_digit') for k in dir(m)):
             mods.append(m.__name__)
     if args.modules:
